@@ -711,7 +711,8 @@ PLANS = {
     'C06': {
         'level': 'proof', 'coq': 'Properties_C06',
         'rule': 'all ordered pairs of every small posit/cfloat/fixpnt/integer configuration x {==,!=,<,<=,>,>=}; ++/-- on every encoding; '
-                'sampled for large configurations. non-trivial = all; distinct = distinct lines',
+                'std::numeric_limits<T>::max / lowest / min / epsilon / denorm_min of every configuration compared with the extremes and spacing of the '
+                'modelled value set (LimitsModel.v); sampled for large configurations. non-trivial = all; distinct = distinct lines',
         'assumptions': [],
         'streams': [exh('posit_cmp_exh', 'posit_small', 'cmp'), rnd('posit_cmp_rnd', 'posit_large', 'cmp', 800, 15000, shards=23)] +
                    [exh('cfloat_cmp_exh%d' % k, 'cfloat_s%d' % k, 'cmp') for k in range(4)] +
